@@ -24,9 +24,20 @@ pub struct Tier {
     pub describe: String,
 }
 
+/// loader-only sweeps are ~20x cheaper than solves: their quick tier uses the thorough instance set with one hash seed
+pub fn tier_rich(tier_name: &str) -> Tier {
+    if tier_name == "thorough" {
+        return tier(tier_name, false);
+    }
+    let mut t = tier("thorough", false);
+    t.seeds.truncate(1);
+    t.describe = format!("(loader-only check: thorough instance set, one hash seed) {}", t.describe);
+    t
+}
+
 pub fn tier(tier: &str, only_maintenance: bool) -> Tier {
     let off = verif_seed().unsigned_abs() * 100;
-    let bases = [BASE0, BASE1, BASE2];
+    let bases = [BASE0, BASE1, BASE2, BASE3];
     let quick_set = instances(&bases, 1, 2);
     let (mut insts, seeds, describe) = if tier == "thorough" {
         // everything of the quick tier, plus - with the demand levels {no passengers, two vehicles} - one
@@ -47,9 +58,9 @@ pub fn tier(tier: &str, only_maintenance: bool) -> Tier {
                 }
             }
         }
-        (v, vec![1 + off, 2 + off, 3 + off], "bases {no maintenance; one slot x 2 tracks with binding maximalDistance; a slot overlapping/tying the trips with binding maximalDistance}: the quick set (<=1 config deviation x <=2 trips, 4 demand levels) U, with demand levels {0 passengers, 2 vehicles}, (<=1 deviation x <=3 trips) U (<=2 deviations x <=2 trips); 3 hash seeds".to_string())
+        (v, vec![1 + off, 2 + off, 3 + off], "bases {no maintenance; one slot x 2 tracks with binding maximalDistance; a slot overlapping/tying the trips with binding maximalDistance; one depot of capacity 1 + two-track slot + maximalDistance 30 000 km}: the quick set (<=1 config deviation x <=2 trips, 4 demand levels) U, with demand levels {0 passengers, 2 vehicles}, (<=1 deviation x <=3 trips) U (<=2 deviations x <=2 trips); 3 hash seeds".to_string())
     } else {
-        (quick_set, vec![1 + off, 2 + off], "bases {no maintenance; one slot x 2 tracks with binding maximalDistance; a slot overlapping/tying the trips with binding maximalDistance}: <=1 config deviation x <=2 trips; 2 hash seeds".to_string())
+        (quick_set, vec![1 + off, 2 + off], "bases {no maintenance; one slot x 2 tracks with binding maximalDistance; a slot overlapping/tying the trips with binding maximalDistance; one depot of capacity 1 + two-track slot + maximalDistance 30 000 km}: <=1 config deviation x <=2 trips; 2 hash seeds".to_string())
     };
     // deep family (all tiers): three trips on the two maintenance bases under every cost model, demand
     // levels {no passengers, two vehicles} - longer local-search trajectories with trade-offs between
@@ -315,7 +326,7 @@ fn outcome_fingerprint(o: &Outcome, prop: &str) -> String {
 
 /// Run the sweep for one property and one binary; returns the aggregated counters merged into `report`.
 pub fn run(spec: &SweepSpec, tier_name: &str, report: &mut Report) {
-    let mut t = tier(tier_name, spec.only_maintenance);
+    let mut t = if spec.kind == "load" { tier_rich(tier_name) } else { tier(tier_name, spec.only_maintenance) };
     if let Some(n) = spec.max_seeds {
         t.seeds.truncate(n);
     }
